@@ -128,6 +128,10 @@ impl AnyServer {
     pub fn shift_rrl_time(&self, secs: u64) {
         with_server!(self, v => v.verif_rrl_shift_time(secs))
     }
+
+    pub fn shift_rrl_time_millis(&self, millis: u64) {
+        with_server!(self, v => v.verif_rrl_shift_time_millis(millis))
+    }
 }
 
 pub fn localhost() -> IpAddr {
